@@ -207,6 +207,150 @@ class TreeGen(Gen):
                          'columns': [], 'pages': pages}, 'scan', rs + ts + pages)
 
 
+class PoolGen(TreeGen):
+    """WAVE 4 (rare shapes): ids drawn from a SMALL pool (None included) and boxes from a small pool of coordinate
+    tokens, so that regions / lines / words sharing an id (no id, per-container numbering r1, r2 …, equal derived ids
+    of equal boxes) are the rule; lines carry Word elements more often than not"""
+
+    def __init__(self, rng: random.Random, pool, coords_pool=None, word_p=0.6):
+        super().__init__(rng)
+        self.pool = list(pool)
+        self.coords_pool = coords_pool
+        self.word_p = word_p
+
+    def fresh_id(self):
+        self.nid += 1
+        return self.rng.choice(self.pool)
+
+    def args(self, cls: str, coords_p=1.0, text_p=0.8):
+        a = super().args(cls, coords_p, text_p)
+        if self.coords_pool:
+            a['coords'] = self.rng.choice(self.coords_pool)
+        return a
+
+    def line(self, need_text=False) -> int:
+        ws = [self.word() for _ in range(self.rng.choice([1, 2, 3]) if self.rng.random() < self.word_p else 0)]
+        a = self.args('line')
+        if need_text and 'text' not in a:
+            a['text'] = 'c d'
+        return self.add({'op': 'mkLine', 'a': a, 'words': ws}, 'line', ws)
+
+
+ID_MODES = ('percontainer', 'none', 'same', 'mixed', 'distinct')
+DUP_TOPS = ('region', 'column', 'scan', 'page-columns', 'page-regions', 'page-extra', 'page-mixed', 'scan-page', 'table')
+
+
+def dup_tree(top: str, id_mode: str, k: int, m: int, words: bool, equal_boxes: bool):
+    """k containers with m leaf regions each (one or two lines per leaf, the first line with Word elements when
+    `words`), below every kind of root; the ids of the leaves / lines / words follow `id_mode`:
+    per-container numbering (r1, r2 … in every container), no ids at all, one id for all, None and one id
+    alternating, or all distinct.  Returns (g, root, nodes to read)."""
+    g = TreeGen(random.Random(0))
+    cnt = itertools.count(1)
+
+    def ident(prefix, j):
+        n = next(cnt)
+        if id_mode == 'percontainer':
+            return {'s': f'{prefix}{j + 1}'}
+        if id_mode == 'none':
+            return None
+        if id_mode == 'same':
+            return {'s': 'dup'}
+        if id_mode == 'mixed':
+            return None if n % 2 else {'s': 'dup'}
+        return {'s': f'{prefix}-{n}'}
+
+    def A(prefix, j, **kw):
+        return dict({'id': ident(prefix, j), 'coords': 7 if equal_boxes else next(cnt) % 300}, **kw)
+
+    def line(j, with_words):
+        ws = [g.add({'op': 'mkWord', 'a': A('w', i, text=t)}, 'word', []) for i, t in enumerate(['u', 'v'])] if with_words else []
+        return g.add({'op': 'mkLine', 'a': A('l', j, text='p q r'), 'words': ws}, 'line', ws)
+
+    def leaf(j, op='mkRegion'):
+        ls = [line(i, words and i == 0) for i in range(1 + j % 2)]
+        return g.add({'op': op, 'a': A('r', j), 'lines': ls, 'regions': [], 'tables': []}, 'column' if op == 'mkColumn' else 'region', ls)
+
+    def container(c, op='mkRegion'):
+        rs = [leaf(j) for j in range(m)]
+        return g.add({'op': op, 'a': A('c', c), 'lines': [], 'regions': rs, 'tables': []}, 'column' if op == 'mkColumn' else 'region', rs)
+
+    def page(cols, regs, extra):
+        return g.add({'op': 'mkPage', 'a': A('p', 0), 'lines': [], 'regions': regs, 'tables': [], 'columns': cols, 'extra': extra},
+                     'page', cols + regs + extra)
+    read = []
+    if top in ('region', 'column'):
+        cs = [container(c) for c in range(k)]
+        root = g.add({'op': 'mkRegion' if top == 'region' else 'mkColumn', 'a': A('t', 0), 'lines': [], 'regions': cs, 'tables': []},
+                     top, cs)
+    elif top == 'scan':
+        cs = [container(c) for c in range(k)]
+        root = g.add({'op': 'mkScan', 'a': A('s', 0), 'lines': [], 'regions': cs, 'tables': [], 'columns': [], 'pages': []}, 'scan', cs)
+    elif top == 'page-columns':
+        root = page([container(c, 'mkColumn') for c in range(k)], [], [])
+    elif top == 'page-regions':
+        root = page([], [container(c) for c in range(k)], [])
+    elif top == 'page-extra':
+        root = page([], [], [container(c) for c in range(k)])
+    elif top == 'page-mixed':
+        cols = [container(c, 'mkColumn') for c in range(max(1, k - 1))]
+        regs = [leaf(j) for j in range(m)]          # leaf regions directly below the page, numbered like those in the columns
+        ex = [leaf(j) for j in range(m)]
+        root = page(cols, regs, ex)
+    elif top == 'scan-page':
+        p = page([container(c, 'mkColumn') for c in range(k)], [], [leaf(0)])
+        root = g.add({'op': 'mkScan', 'a': A('s', 0), 'lines': [], 'regions': [], 'tables': [], 'columns': [], 'pages': [p]}, 'scan', [p])
+        read.append(p)                              # the page is the document that is read (a scan holding pages is mirrored only)
+    elif top == 'table':
+        rows = []
+        for r in range(k):
+            cells = []
+            for c in range(m):
+                ls = [line(i, words and i == 0) for i in range(1 + c % 2)]
+                cells.append(g.add({'op': 'mkCell', 'a': A('cell', c), 'lines': ls, 'row': r, 'col': c}, 'cell', ls))
+            rows.append(g.add({'op': 'mkRow', 'a': A('row', r), 'cells': cells}, 'row', cells))
+        root = g.add({'op': 'mkTable', 'a': A('t', 0), 'rows': rows}, 'table', rows)
+    else:
+        raise ValueError(top)
+    read.append(root)
+    return g, root, read
+
+
+def accs_for(cls: str) -> List[str]:
+    """the read accessors the statement names, per class of the object read"""
+    if cls in REGION_CLS:
+        return list(ACCS)
+    if cls == 'line':
+        return ['get_words', 'num_words', 'stats', 'json', 'to_pagexml', 'area', 'get_lines']
+    if cls == 'word':
+        return ['json', 'to_pagexml', 'area', 'stats']
+    return ['get_lines', 'get_words', 'stats', 'num_lines', 'num_words', 'json', 'area']
+
+
+def battery(g: Gen, nodes: List[int], rng: Optional[random.Random] = None) -> List[Dict[str, Any]]:
+    """every accessor of every node in `nodes`, then all of them again in another order ("in any order and any
+    number of times … returns the same answers")"""
+    first = [{'acc': a, 'n': n} for n in nodes for a in accs_for(g.cls[n])]
+    second = list(reversed(first))
+    if rng is not None:
+        rng.shuffle(second)
+    return first + second
+
+
+def second_read(g: Gen, root: int, acc: str, n: int) -> List[Dict[str, Any]]:
+    """`acc` on node n twice on a fresh tree, then the other views of the document (root, first line, first word
+    below it), then `acc` again: the second and third answer must equal the first and nothing may have changed"""
+    below = [i for i in range(len(g.cls)) if g.below(i, root)]
+    probe = [{'acc': a, 'n': root} for a in accs_for(g.cls[root]) if a in ('get_lines', 'get_words', 'stats', 'num_words', 'json',
+                                                                            'get_inner_text_regions')]
+    for cls, names in (('line', ['get_words', 'num_words', 'json']), ('word', ['json'])):
+        x = next((i for i in below if g.cls[i] == cls and (cls != 'line' or g.kids[i])), None)
+        if x is not None:
+            probe += [{'acc': a, 'n': x} for a in names]
+    me = {'acc': acc, 'n': n}
+    return [dict(me), dict(me)] + probe + [dict(me)]
+
+
 def page_with_direct_lines(build: List[Dict[str, Any]]) -> bool:
     """the quantifier: "pages built from columns, regions and extra regions" — a tree holding a page that owns lines
     directly is not one of the documents the property speaks about (what its traversals answer, or whether they raise,
@@ -338,7 +482,14 @@ class C04(Check):
                   '(C05); the depth bound 1000 of the abstraction function stands for CPython\'s recursion limit; '
                   'correspondence: trees holding a page with direct lines are outside the quantifier ("pages built from '
                   'columns, regions and extra regions") — mirrored, differences recorded only, not judged; an accessor that '
-                  'raises is compared as raising-or-not (no exception class is stated)')
+                  'raises is compared as raising-or-not (no exception class is stated). WAVE 4 (histories / rare shapes; the '
+                  'store model is a pure function of (store, accessor), so the same model answer must hold for every repeated '
+                  'call — no new Lean): families dup-ids (elements sharing an id — None, per-container numbering r1, r2 …, one '
+                  'id, None/id alternating — and equal boxes below EVERY root kind: region, column, scan, page built from '
+                  'columns / regions / extra / all three, page below a scan, table; every accessor of the root twice in two '
+                  'orders), second-read (for every accessor of every root kind and of one object below it: call, same call, the '
+                  'other views of the document, call again — same answers, nothing changed) and battery (random trees with ids '
+                  'from a small pool, every accessor of several nodes, then all again shuffled)')
     assumptions = [
         'trees are built without reading order (C05 covers the ordered traversal); sorted(page.columns) is a '
         'parameter of the model — the harness passes the order CPython returned and the theorems only use that it '
@@ -381,6 +532,7 @@ class C04(Check):
             else:
                 root, tag = g.table(), 'table'
             out.append(Case('tree', {'build': g.ops, 'accs': gen_accs(rng, g, root, rng.randint(3, 9))}, [tag]))
+        out.extend(self._wave4(rng, tier))
         for _ in range(max(10, n // 10)):               # outside the traversal claims / error paths: mirrored only
             g = TreeGen(rng)
             kind = rng.choice(['page-lines', 'page-table', 'scan-pages', 'region-text', 'no-coords'])
@@ -406,6 +558,63 @@ class C04(Check):
         for c in out:
             if page_with_direct_lines(c.input['build']) and OUTSIDE not in c.tags:
                 c.tags.append(OUTSIDE)
+        return out
+
+    # ------------------------------------------------------------------ WAVE 4 families
+    def _wave4(self, rng: random.Random, tier: str) -> List[Case]:
+        """histories on USED objects and rare id shapes, for every kind of root (every entry point of the traversals:
+        region, column, page, scan, table, line):
+          dup-ids      elements sharing an id (None, per-container numbering, one id, equal boxes) below every root kind,
+                       every accessor of the root (and of the page below a scan) twice in two orders;
+          second-read  for EVERY accessor of every root kind: the call, the same call again, the other views of the
+                       document, the call a third time — same answers, nothing changed;
+          battery      random trees (ids from a small pool, lines with Word elements first), every accessor of the
+                       root and of some nodes below it, then all again in a random order."""
+        quick = tier == 'quick'
+        out: List[Case] = []
+        shapes = [(2, 2), (3, 1), (1, 3)] if quick else [(2, 2), (3, 1), (1, 3), (2, 3), (4, 2)]
+        i = 0
+        for top in DUP_TOPS:
+            for mode in ID_MODES:
+                for (k, m) in shapes:
+                    i += 1
+                    g, root, read = dup_tree(top, mode, k, m, words=i % 3 != 0, equal_boxes=i % 4 == 0)
+                    out.append(Case('tree', {'build': g.ops, 'accs': battery(g, read)}, ['dup-ids', f'top={top}', f'ids={mode}']))
+        pools = [[None, {'s': 'r1'}, {'s': 'r2'}], [None], [{'s': 'dup'}, None, {'s': 'a'}, {'s': 'b'}, {'s': 'c'}]]
+
+        def tree(kind: str, pool):
+            g = PoolGen(rng, pool, coords_pool=[3, 3, 5, 8, 13, 21, 34] if rng.random() < 0.5 else None)
+            if kind == 'region':
+                return g, g.region(rng.choice([1, 2, 3]))
+            if kind == 'column':
+                return g, g.region(rng.choice([1, 2]), col=True)
+            if kind == 'page':
+                return g, g.page(rng.choice([0, 1, 2]))
+            if kind == 'scan':
+                return g, g.scan(rng.choice([1, 2]))
+            if kind == 'table':
+                return g, g.table()
+            ls = g.line()
+            return g, ls
+        for kind in ('region', 'column', 'page', 'scan', 'table', 'line'):
+            for t in range(3 if quick else 8):
+                g, root = tree(kind, pools[t % len(pools)])
+                for acc in accs_for(g.cls[root]):
+                    out.append(Case('tree', {'build': g.ops, 'accs': second_read(g, root, acc, root)},
+                                    ['second-read', f'top={kind}', f'acc={acc}']))
+                # … and the same for one object BELOW the root (read through the part, then through the whole)
+                below = [x for x in range(len(g.cls)) if x != root and g.below(x, root) and g.cls[x] in REGION_CLS + ('line', 'table', 'row', 'cell', 'word')]
+                if below:
+                    n2 = rng.choice(below)
+                    for acc in accs_for(g.cls[n2]):
+                        out.append(Case('tree', {'build': g.ops, 'accs': second_read(g, root, acc, n2)},
+                                        ['second-read', f'top={kind}', f'sub={g.cls[n2]}', f'acc={acc}']))
+        for t in range(40 if quick else 300):
+            kind = rng.choice(['region', 'column', 'page', 'page', 'scan', 'table'])
+            g, root = tree(kind, rng.choice(pools))
+            below = [x for x in range(len(g.cls)) if x != root and g.below(x, root)]
+            nodes = [root] + rng.sample(below, min(len(below), rng.choice([0, 1, 2, 3])))
+            out.append(Case('tree', {'build': g.ops, 'accs': battery(g, nodes, rng)}, ['battery', f'top={kind}']))
         return out
 
     # ------------------------------------------------------------------ implementation
@@ -478,6 +687,15 @@ class C04(Check):
 
     # ------------------------------------------------------------------ oracle
     def oracle(self, case: Case, out: Any) -> List[Finding]:
+        # an answer of the real code that the judgement below cannot even read (an object that is no part of the
+        # document, a value of another shape) is an outcome to report, never a crash of the harness
+        try:
+            return self._oracle(case, out)
+        except Exception as e:  # noqa
+            return [Finding('C04:answer-shape', f'the answers of the real code cannot be judged ({type(e).__name__}: {e}); '
+                                                f'steps: {str([st.get("out") for st in out.get("steps", [])])[:600]}', case, None)]
+
+    def _oracle(self, case: Case, out: Any) -> List[Finding]:
         fs: List[Finding] = []
         seen = set()
 
@@ -552,7 +770,9 @@ class C04(Check):
 
     @staticmethod
     def _line_words(out, l: int) -> List[Dict[str, Any]]:
-        d = out['lines'][str(l)]
+        d = out['lines'].get(str(l))
+        if d is None:               # not a line of this document (reported by the caller's comparison)
+            return [{'foreign': l}]
         if d['words']:
             return [{'n': x} for x in d['words']]
         if d['text']:
